@@ -141,6 +141,8 @@ type Fresh struct {
 	P           *Program
 	retFresh    map[*ssa.Function]int // 0 unknown, 1 fresh, 2 not
 	freshParams map[*ssa.Function]map[int]bool
+	cf          map[ssa.Value]int
+	df          map[*ssa.Function]int
 }
 
 func (p *Program) Freshness() *Fresh {
@@ -239,74 +241,305 @@ func (f *Fresh) ReturnsFresh(fn *ssa.Function) bool {
 // IsFresh: v denotes (an address inside / a value loaded from) an object allocated by the
 // current goroutine and not yet shared: composite literal / new / make in this function,
 // sync.Pool.Get results, results of fresh-returning functions, fresh parameters of
-// constructor-phase helpers, and anything reached from such a root.
-func (f *Fresh) IsFresh(v ssa.Value, d int) bool {
+// constructor-phase helpers.  Crossing a pointer edge inside such an object (an element of a fresh
+// slice/map, a pointer field) stays thread-local only if every pointer stored into the object by
+// its allocating function was itself thread-local ("content-fresh").
+func (f *Fresh) IsFresh(v ssa.Value, d int) bool { return f.fresh(v, false, d) }
+
+func pointerish(t types.Type) bool {
+	switch t.Underlying().(type) {
+	case *types.Pointer, *types.Map, *types.Slice, *types.Interface, *types.Chan, *types.Signature:
+		return true
+	}
+	return false
+}
+
+func (f *Fresh) fresh(v ssa.Value, deep bool, d int) bool {
 	if d > 16 {
 		return false
 	}
 	switch x := v.(type) {
-	case *ssa.Alloc:
+	case *ssa.Alloc, *ssa.MakeMap, *ssa.MakeSlice:
+		if deep {
+			return f.contentFresh(v, d)
+		}
 		return true
-	case *ssa.MakeMap, *ssa.MakeSlice, *ssa.MakeChan:
-		return true
+	case *ssa.MakeChan:
+		return !deep
 	case *ssa.Parameter:
 		fn := x.Parent()
 		for i, p := range fn.Params {
 			if p == x {
-				return f.freshParams[fn][i]
+				return f.freshParams[fn][i] && !deep
 			}
 		}
 		return false
 	case *ssa.Call:
 		name := CalleeName(x)
 		if name == "(*sync.Pool).Get" {
+			if deep {
+				return f.contentFresh(v, d)
+			}
 			return true
 		}
 		if sf := StaticFn(x); sf != nil && f.P.IsHelios(sf) {
-			return f.ReturnsFresh(sf)
+			if !f.ReturnsFresh(sf) {
+				return false
+			}
+			if deep {
+				return f.deepFresh(sf)
+			}
+			return true
 		}
 		return false
 	case *ssa.TypeAssert:
-		return f.IsFresh(x.X, d+1)
+		return f.fresh(x.X, deep, d+1)
 	case *ssa.Extract:
-		return f.IsFresh(x.Tuple, d+1)
+		return f.fresh(x.Tuple, deep, d+1)
 	case *ssa.UnOp:
 		if x.Op == token.MUL {
-			return f.IsFresh(x.X, d+1)
+			if cell, ok := x.X.(*ssa.Alloc); ok && pointerish(x.Type()) {
+				// a local variable holding a pointer: as fresh as everything assigned to it
+				n := 0
+				if refs := cell.Referrers(); refs != nil {
+					for _, r := range *refs {
+						if st, ok := r.(*ssa.Store); ok && st.Addr == cell {
+							n++
+							if !f.fresh(st.Val, deep, d+1) {
+								return false
+							}
+						}
+					}
+				}
+				return n > 0
+			}
+			// loading a pointer-ish value out of an object crosses a pointer edge
+			return f.fresh(x.X, deep || pointerish(x.Type()), d+1)
 		}
 		return false
 	case *ssa.FieldAddr:
-		return f.IsFresh(x.X, d+1)
+		return f.fresh(x.X, deep, d+1)
 	case *ssa.Field:
-		return f.IsFresh(x.X, d+1)
+		return f.fresh(x.X, deep, d+1)
 	case *ssa.IndexAddr:
-		return f.IsFresh(x.X, d+1)
+		return f.fresh(x.X, deep, d+1)
 	case *ssa.Index:
-		return f.IsFresh(x.X, d+1)
+		return f.fresh(x.X, deep || pointerish(x.Type()), d+1)
 	case *ssa.Lookup:
-		return f.IsFresh(x.X, d+1)
+		return f.fresh(x.X, deep || pointerish(x.Type()), d+1)
 	case *ssa.Next:
-		return f.IsFresh(x.Iter, d+1)
+		return f.fresh(x.Iter, true, d+1)
 	case *ssa.Range:
-		return f.IsFresh(x.X, d+1)
+		return f.fresh(x.X, deep, d+1)
 	case *ssa.Phi:
 		for _, e := range x.Edges {
 			if e == x {
 				continue
 			}
-			if !f.IsFresh(e, d+1) {
+			if !f.fresh(e, deep, d+1) {
 				return false
 			}
 		}
 		return len(x.Edges) > 0
 	case *ssa.Convert:
-		return f.IsFresh(x.X, d+1)
+		return f.fresh(x.X, deep, d+1)
 	case *ssa.ChangeType:
-		return f.IsFresh(x.X, d+1)
+		return f.fresh(x.X, deep, d+1)
 	case *ssa.MakeInterface:
-		return f.IsFresh(x.X, d+1)
+		return f.fresh(x.X, deep, d+1)
 	case *ssa.Slice:
-		return f.IsFresh(x.X, d+1)
+		return f.fresh(x.X, deep, d+1)
 	}
 	return false
+}
+
+// rootOf follows address/element/load chains back to the object a location belongs to.
+func rootOf(v ssa.Value) ssa.Value {
+	for i := 0; i < 32; i++ {
+		switch x := v.(type) {
+		case *ssa.FieldAddr:
+			v = x.X
+		case *ssa.IndexAddr:
+			v = x.X
+		case *ssa.Field:
+			v = x.X
+		case *ssa.Index:
+			v = x.X
+		case *ssa.Lookup:
+			v = x.X
+		case *ssa.UnOp:
+			if x.Op != token.MUL {
+				return v
+			}
+			v = x.X
+		case *ssa.TypeAssert:
+			v = x.X
+		case *ssa.Extract:
+			v = x.Tuple
+		case *ssa.Slice:
+			v = x.X
+		case *ssa.ChangeType:
+			v = x.X
+		case *ssa.Convert:
+			v = x.X
+		default:
+			return v
+		}
+	}
+	return v
+}
+
+// contentFresh: every pointer-ish value stored (by the allocating function) into the object rooted
+// at root is itself thread-local.
+func (f *Fresh) contentFresh(root ssa.Value, d int) bool {
+	in, ok := root.(ssa.Instruction)
+	if !ok || in.Parent() == nil {
+		return false
+	}
+	if f.cf == nil {
+		f.cf = map[ssa.Value]int{}
+	}
+	switch f.cf[root] {
+	case 1:
+		return true
+	case 2:
+		return false
+	case 3:
+		return true // cycle: optimistic on the back edge
+	}
+	f.cf[root] = 3
+	ok = true
+	instrsOf(in.Parent(), func(i ssa.Instruction) {
+		var dst, val ssa.Value
+		switch x := i.(type) {
+		case *ssa.Store:
+			dst, val = x.Addr, x.Val
+		case *ssa.MapUpdate:
+			dst, val = x.Map, x.Value
+		default:
+			return
+		}
+		if rootOf(dst) != root || !pointerish(val.Type()) || isConstNil(val) {
+			return
+		}
+		if _, isFn := val.(*ssa.Function); isFn {
+			return
+		}
+		if _, isMC := val.(*ssa.MakeClosure); isMC {
+			return
+		}
+		if !f.fresh(val, true, d+1) {
+			ok = false
+		}
+	})
+	// append(root-slice, elems...) also stores
+	if ok {
+		f.cf[root] = 1
+	} else {
+		f.cf[root] = 2
+	}
+	return ok
+}
+
+// deepFresh: fn returns a fresh object whose contents are thread-local too.
+func (f *Fresh) deepFresh(fn *ssa.Function) bool {
+	if f.df == nil {
+		f.df = map[*ssa.Function]int{}
+	}
+	switch f.df[fn] {
+	case 1:
+		return true
+	case 2:
+		return false
+	}
+	f.df[fn] = 2
+	ok := true
+	instrsOf(fn, func(in ssa.Instruction) {
+		r, isRet := in.(*ssa.Return)
+		if !isRet {
+			return
+		}
+		for _, v := range r.Results {
+			if !pointerish(v.Type()) || isConstNil(v) {
+				continue
+			}
+			if !f.fresh(v, true, 0) {
+				ok = false
+			}
+		}
+	})
+	if ok {
+		f.df[fn] = 1
+	}
+	return ok
+}
+
+// snapshotNoEscape: a function that returns a fresh snapshot object (GetMetrics) must not store
+// pointers to shared objects into it — the callers read the snapshot without any lock.
+func (c *Ctx) snapshotNoEscape() {
+	p := c.P
+	fr := p.Freshness()
+	n := 0
+	for _, fn := range p.Funcs {
+		if !p.InScope(fn) || !fr.ReturnsFresh(fn) {
+			continue
+		}
+		// only snapshot-style functions: they read lock-guarded fields
+		guardedRead := false
+		for _, a := range Accesses(fn) {
+			if _, ok := tLock[a.Key]; ok && !fr.IsFresh(a.FA.X, 0) {
+				guardedRead = true
+			}
+		}
+		if !guardedRead {
+			continue
+		}
+		n++
+		var bad []string
+		instrsOf(fn, func(in ssa.Instruction) {
+			var dst, val ssa.Value
+			switch x := in.(type) {
+			case *ssa.MapUpdate:
+				dst, val = x.Map, x.Value
+			case *ssa.Store:
+				dst, val = x.Addr, x.Val
+			default:
+				return
+			}
+			if !fr.IsFresh(dst, 0) {
+				return
+			}
+			if _, isPtr := val.Type().Underlying().(*types.Pointer); !isPtr {
+				if _, isMap := val.Type().Underlying().(*types.Map); !isMap {
+					if _, isSl := val.Type().Underlying().(*types.Slice); !isSl {
+						return
+					}
+				}
+			}
+			if isConstNil(val) || fr.IsFresh(val, 0) {
+				return
+			}
+			// only objects protected by somebody else's lock (e.g. *BackendMetrics under Metrics.mutex);
+			// objects that carry their own lock (e.g. *Backend) may be shared
+			external := false
+			if nt := namedOf(val.Type()); nt != nil {
+				prefix := QualType(nt) + "."
+				for k, class := range tLock {
+					if strings.HasPrefix(k, prefix) && lockStructOf(class) != QualType(nt) {
+						external = true
+					}
+				}
+			}
+			if !external {
+				return
+			}
+			bad = append(bad, p.InstrPos(in)+": a pointer to shared state ("+p.Desc(val, nil)+") is stored into the returned snapshot; its readers hold no lock")
+		})
+		if len(bad) == 0 {
+			c.Pass("snapshot-no-escape", p.FuncKey(fn), p.Pos(fn.Pos()), "the returned copy contains no pointer to lock-guarded shared objects")
+		} else {
+			c.Fail("snapshot-no-escape", p.FuncKey(fn), p.Pos(fn.Pos()), bad[0], bad...)
+		}
+	}
+	c.Floor("snapshot-no-escape", n, 1, "snapshot-returning functions")
 }
